@@ -308,7 +308,7 @@ class EvoGen(ValueGen):
 
     def struct_value(self, d, depth, exact=False):
         m = self.m
-        if d.subtypes and not exact and self.rnd.random() < 0.5:
+        if d.subtypes and not exact and depth < self.max_depth and self.rnd.random() < 0.5:
             new = [m.lookup(*sn) for _, sn in d.subtypes['items'] if sn in self.evo.new_types]
             for leaf in new:
                 try:
@@ -331,7 +331,7 @@ class EvoGen(ValueGen):
         return av
 
     def union_value(self, d, depth, tag=None):
-        if tag is None and self.rnd.random() < 0.6:
+        if tag is None and depth < self.max_depth and self.rnd.random() < 0.6:
             pref = []
             for u in self.m.chain(d):
                 for f in self.m.own_fields(u):
